@@ -578,9 +578,13 @@ func exhaustiveC11(thorough bool, emit func(C11Case) bool) {
 	}
 }
 
-func TestC11(t *testing.T) {
-	Run(t, Prop[C11Case]{ID: "C11", Gen: genC11, Exhaustive: exhaustiveC11, Check: checkC11, TerminationIsProperty: true})
+func propC11() Prop[C11Case] {
+	return Prop[C11Case]{ID: "C11", Gen: genC11, Exhaustive: exhaustiveC11, Check: checkC11, TerminationIsProperty: true}
 }
+
+func TestC11(t *testing.T) { Run(t, propC11()) }
+
+func FuzzGenC11(f *testing.F) { RunFuzz(f, propC11()) }
 
 // ---- native fuzz targets (thorough tier) ------------------------------------------------
 
